@@ -1611,9 +1611,25 @@ where
                 let mut r = lock(&sh2.regs);
                 (std::mem::take(&mut r.g), std::mem::take(&mut r.h), std::mem::take(&mut r.c))
             };
+            // every register is released on its own: a panic coming out of one release (an injected
+            // destructor panic, or the library's own) must not meet a second one during cleanup
+            fn drop_each<X>(v: Vec<X>, what: &str) {
+                for x in v {
+                    if let Err(p) = catch_unwind(AssertUnwindSafe(|| drop(x))) {
+                        let msg = p
+                            .downcast_ref::<String>()
+                            .cloned()
+                            .or_else(|| p.downcast_ref::<&str>().map(|s| s.to_string()))
+                            .unwrap_or_default();
+                        if !msg.starts_with("injected") {
+                            violation(format!("panic: releasing a {} at the end of the execution: {}", what, msg));
+                        }
+                    }
+                }
+            }
             let _ = catch_unwind(AssertUnwindSafe(|| {
                 // borrow slots must be free once the guards are gone, whoever else still owns things
-                drop(gs);
+                drop_each(gs, "guard");
                 for s in verif::nodes() {
                     let occupied = s.fast.iter().filter(|(_, v)| *v != 3).count() + (s.slot.1 != 3) as usize;
                     if occupied != 0 || (s.control.1 != 0) || s.active_writers.1 != 0 {
@@ -1623,10 +1639,10 @@ where
                         ));
                     }
                 }
-                drop(cs);
-                drop(hs);
-                drop(std::mem::take(&mut *lock(&sh2.c1)));
-                drop(std::mem::take(&mut *lock(&sh2.h1)));
+                drop_each(cs, "container");
+                drop_each(hs, "handle");
+                drop_each(std::mem::take(&mut *lock(&sh2.c1)), "container");
+                drop_each(std::mem::take(&mut *lock(&sh2.h1)), "handle");
             }));
         })
         .join();
